@@ -105,6 +105,19 @@ func init() {
 		"[recv.eof && recv.error && recv.errorString == \"\"] recv.errorString = \"unexpected EOF while parsing\"; ExceptionNewf(py.SyntaxError, \"%s\", recv.errorString) -> err!",
 		"[recv.error && recv.errorString != \"\"] ExceptionNewf(py.SyntaxError, \"%s\", recv.errorString) -> err!",
 	}
+	// iter(x): the object's own __iter__ (native, then Python-level) is asked first; only an object without one falls back to the sequence protocol (indexing from 0); TypeError last [abstract.c PyObject_GetIter]  []
+	pathSpec["py|Iter"] = []string{
+		"[!(flag1) && !(p1.(I__iter__)) && !(py.ObjectIsSequence(p1))] TypeCall0(p1, \"__iter__\"); ObjectIsSequence(p1); p1.Type(); ExceptionNewf(TypeError, \"'%s' object is not iterable\", (py.Object).Type#0.Name) -> nil, err!",
+		"[!(flag1) && !(p1.(I__iter__)) && py.ObjectIsSequence(p1)] TypeCall0(p1, \"__iter__\"); ObjectIsSequence(p1); NewIterator(p1) -> py.NewIterator#0, nil",
+		"[!(p1.(I__iter__)) && flag1] TypeCall0(p1, \"__iter__\") -> py.TypeCall0#0, py.TypeCall0#2",
+		"[p1.(I__iter__)] p1.M__iter__() -> (py.I__iter__).M__iter__#0, (py.I__iter__).M__iter__#1",
+	}
+	// next(x): the iterator's own __next__ (native, then Python-level), TypeError for a non-iterator [abstract.c PyIter_Next]  []
+	pathSpec["py|Next"] = []string{
+		"[!(flag1) && !(p1.(I__next__))] TypeCall0(p1, \"__next__\"); p1.Type(); ExceptionNewf(TypeError, \"'%s' object is not iterable\", (py.Object).Type#0.Name) -> nil, err!",
+		"[!(p1.(I__next__)) && flag1] TypeCall0(p1, \"__next__\") -> py.TypeCall0#0, py.TypeCall0#2",
+		"[p1.(I__next__)] p1.M__next__() -> (py.I__next__).M__next__#0, (py.I__next__).M__next__#1",
+	}
 	// range equality compares the sequences the ranges denote: different lengths differ; empty ranges are equal; then the first items must agree; a range of one item needs nothing more; otherwise the steps must agree [rangeobject.c range_equals]  []
 	pathSpec["py|Range.M__eq__"] = []string{
 		"[!(p1.(*Range))]  -> NotImplemented, nil",
